@@ -3,7 +3,7 @@
    and terminates is C04; the exit status is decided by main.rs from the verdict, see Cli.wellformed_exit, and is checked on the
    real binary by the correspondence run). *)
 From Coq Require Import List ZArith Lia Bool Arith.
-Require Import HP1 Cao1 Cao5 Cao6 Rooms Spec Valid Node NoPanic WfCheck RoomThms RoomSites WfPres Solve NoOverflow.
+Require Import HP1 Cao1 Cao5 Cao6 Rooms Spec Valid Node NoPanic WfCheck RoomThms RoomSites WfPres Solve NoOverflow Terminate.
 Require EngP2.
 Require Json SimpleRead SimpleValid CdeValid.
 Import ListNotations.
@@ -180,11 +180,24 @@ Proof.
   rewrite Forall_forall in Hg. apply (C10_node_total courses parts esize (fixed_shrink courses shrinkf) rooms nd V FS Hs (Hg nd Hin)).
 Qed.
 
-Check C10_fixed_node. Check C10_fixed_total. Check C10_fixed_answered. Check C10_node_total. Check C10_total. Check C10_size_checker. Check C10_document_valid. Check C10_document_node. Check C10_float_sane_checker. Check C10_node. Check C10_node_class. Check C10_root_wf. Check C10_children_wf. Check C10_search. Check C10_no_failure. Check C10_never_stuck. Check C10_node_noroom.
+(* "never hangs": the subproblem tree of caobab::solve is finite -- a height on subproblems (courses not yet cancelled + courses not yet
+   enforced + sum of the current shrink bounds) drops strictly along every child the node function generates (Terminate.children_lower)
+   -- so the engine's measure (C04_termination) applies: for every valid instance, room list, worker count and interleaving there is a
+   measure on search states that decreases with every step except spurious wake-ups of sleeping workers (+3).  Together with
+   C04_no_deadlock (some step is always enabled while a worker is unfinished) every run ends after finitely many steps. *)
+Theorem C10_never_hangs : forall courses parts esize shrinkf rooms, Valid courses parts ->
+  exists Mf : nat -> EngP2.state node assignment -> nat, forall smin smax k b st st',
+    SReach courses parts esize shrinkf rooms smin smax k st ->
+    EngP2.Step node assignment (f_full courses parts esize shrinkf rooms) b st st' ->
+    if b then Mf k st' + 1 <= Mf k st else Mf k st' = Mf k st + 3.
+Proof. exact search_terminates. Qed.
+
+Check C10_never_hangs. Check C10_fixed_node. Check C10_fixed_total. Check C10_fixed_answered. Check C10_node_total. Check C10_total. Check C10_size_checker. Check C10_document_valid. Check C10_document_node. Check C10_float_sane_checker. Check C10_node. Check C10_node_class. Check C10_root_wf. Check C10_children_wf. Check C10_search. Check C10_no_failure. Check C10_never_stuck. Check C10_node_noroom.
 Print Assumptions C10_node.
 Print Assumptions C10_node_total.
 Print Assumptions C10_total.
 Print Assumptions C10_fixed_node.
+Print Assumptions C10_never_hangs.
 Print Assumptions C10_fixed_total.
 Print Assumptions C10_fixed_answered.
 Print Assumptions C10_document_total.
